@@ -79,7 +79,7 @@ HARNESSES += [
     for f in ["new", "to", "from"]
 ]
 HARNESSES += [
-    H(f"c15c01c02_pp_{n}_q", ["C15", "C01", "C02"], weight=15,
+    H(f"c15c01c02_pp_{n}_q", ["C15", "C01", "C02"], weight=15, unwind_is_violation=True, unwind_replay="pp_hang",
       allow_unreachable_w=n in ("endif", "define", "plain", "eof"))
     for n in ["ifdef", "ifndef", "else", "endif", "define", "plain", "eof"]
 ] + [
